@@ -17,11 +17,23 @@ use crate::stream::Stream;
 use crate::thread::pool::ThreadPool;
 
 use std::io::Write;
+#[cfg(not(humphrey_verif))]
 use std::net::{IpAddr, Ipv4Addr, Ipv6Addr, SocketAddr, TcpListener, TcpStream, ToSocketAddrs};
+#[cfg(humphrey_verif)]
+use {crate::verif::net::{TcpListener, TcpStream}, std::net::{IpAddr, Ipv4Addr, Ipv6Addr, SocketAddr, ToSocketAddrs}};
+#[cfg(not(humphrey_verif))]
 use std::sync::atomic::{AtomicBool, Ordering};
+#[cfg(humphrey_verif)]
+use crate::verif::sync::atomic::{AtomicBool, Ordering};
+#[cfg(not(humphrey_verif))]
 use std::sync::mpsc::Receiver;
+#[cfg(humphrey_verif)]
+use crate::verif::sync::mpsc::Receiver;
 use std::sync::Arc;
+#[cfg(not(humphrey_verif))]
 use std::thread;
+#[cfg(humphrey_verif)]
+use crate::verif::thread;
 use std::time::Duration;
 
 #[cfg(feature = "tls")]
